@@ -209,6 +209,21 @@ def _param(form, name, value):
     raise ValueError(form)
 
 
+def _nest_names(items, kind):
+    """Names given to the nest objects.  The names carry no meaning for the model, so every naming must give the same
+    probabilities: distinct names, no names (the library numbers unnamed nests by position), one name shared by all
+    nests, and a nest object that was named by an earlier, smaller specification (object re-use across specifications).
+    The mode rotates deterministically with the structure."""
+    mode = (len(items) + sum(len(m) for _, m in items) + (0 if kind == 'nested' else 1)) % 4
+    if mode == 0 or len(items) < 2:
+        return [f'n{i}' for i in range(len(items))], mode
+    if mode == 1:
+        return [None] * len(items), mode
+    if mode == 2:
+        return ['nest'] * len(items), mode
+    return [None] * len(items), 3
+
+
 def build_nested_nests(alts, struct, mus, syntax='obj', pform='float'):
     """struct = (alone, nests); nests listed in reverse order and members reversed (order must not matter)."""
     from biogeme.nests import OneNestForNestedLogit, NestsForNestedLogit
@@ -220,7 +235,11 @@ def build_nested_nests(alts, struct, mus, syntax='obj', pform='float'):
         items.append((p, members))
     if syntax == 'tuple':
         return tuple(items)
-    objs = tuple(OneNestForNestedLogit(nest_param=p, list_of_alternatives=m, name=f'n{i}') for i, (p, m) in enumerate(items))
+    names, mode = _nest_names(items, 'nested')
+    objs = tuple(OneNestForNestedLogit(nest_param=p, list_of_alternatives=m, name=names[i]) for i, (p, m) in enumerate(items))
+    if mode == 3:
+        # the last nest object is first used alone (and named by that specification), then re-used here
+        NestsForNestedLogit(choice_set=list(alts), tuple_of_nests=(objs[-1],))
     return NestsForNestedLogit(choice_set=list(alts), tuple_of_nests=objs)
 
 
@@ -236,7 +255,10 @@ def build_cnl_nests(alts, struct, mus, syntax='obj', pform='float', aform='float
         items.append((p, al))
     if syntax == 'tuple':
         return tuple(items)
-    objs = tuple(OneNestForCrossNestedLogit(nest_param=p, dict_of_alpha=al, name=f'n{i}') for i, (p, al) in enumerate(items))
+    names, mode = _nest_names(items, 'cnl')
+    objs = tuple(OneNestForCrossNestedLogit(nest_param=p, dict_of_alpha=al, name=names[i]) for i, (p, al) in enumerate(items))
+    if mode == 3:
+        NestsForCrossNestedLogit(choice_set=list(alts), tuple_of_nests=(objs[-1],))
     return NestsForCrossNestedLogit(choice_set=list(alts), tuple_of_nests=objs)
 
 
